@@ -1198,6 +1198,89 @@ func runC07(c *Check) {
 	c.MinInstances("C07-R5", 4)
 	c.Doc("C07-R6", "VP: sibling agreement of the cache save and load paths.")
 	ruleCachePathsAgree(c, p)
+	c.Doc("C07-R7", "VP+GA: the DA heights stored per block come from the mark of the part they describe: the header's from the header cache, the data's from the data cache (the header's only for a block without transactions).")
+	ruleStoredDAHeightsProvenance(c, p)
+}
+
+// ruleStoredDAHeightsProvenance (C07-R7): in the function that stores the per-block DA heights
+// (metadata keys built from RollkitHeightToDAHeightKey), each stored 8-byte value is filled by a
+// PutUint64 whose operand derives from GetDAIncludedHeight of the matching cache.
+func ruleStoredDAHeightsProvenance(c *Check, p *Prog) {
+	rule := "C07-R7"
+	prefix, _ := constString(p, rootPath+"/pkg/store", "RollkitHeightToDAHeightKey")
+	n := 0
+	for _, fn := range p.Funcs {
+		pk := fnPkg(fn)
+		if pk == nil || pk.Pkg.Path() != rootPath+"/block" || fn.Parent() != nil {
+			continue
+		}
+		g := BuildECFG(p, fn, ExpandOpts{MaxDepth: 0})
+		sets := g.Select(func(x *Node) bool {
+			if CallName(x) != storeM("SetMetadata") {
+				return false
+			}
+			k := ArgTerm(x, 1)
+			return k != nil && prefix != "" && strings.Contains(k.String(), strings.Trim(prefix, "\"")) || (k != nil && strings.Contains(k.String(), "RollkitHeightToDAHeightKey"))
+		})
+		if len(sets) == 0 {
+			continue
+		}
+		c.NoteGraph(g)
+		puts := g.Select(func(x *Node) bool { return strings.HasSuffix(CallName(x), "Endian).PutUint64") })
+		fromCache := func(t *Term, cache string) bool {
+			return p.DeepContains(t, func(x *Term) bool {
+				return x.IsCall("Cache[_]).GetDAIncludedHeight") && len(x.Args) > 0 && x.Args[0].Op == "field" && x.Args[0].Name == cache
+			}, 2)
+		}
+		for _, sn := range sets {
+			key := ArgTerm(sn, 1).String()
+			part := ""
+			switch {
+			case strings.Contains(key, "/h"):
+				part = "header"
+			case strings.Contains(key, "/d"):
+				part = "data"
+			default:
+				continue
+			}
+			n++
+			buf := CallCommonOf(sn).Args[len(CallCommonOf(sn).Args)-1]
+			inst := fnShort(fn) + " ⟂ stored " + part + " DA height ← " + part + " cache"
+			bad, any := "", false
+			for _, pn := range puts {
+				if cc := CallCommonOf(pn); cc == nil || len(cc.Args) < 2 || cc.Args[len(cc.Args)-2] != buf {
+					continue
+				}
+				any = true
+				v := TermOf(CallCommonOf(pn).Args[len(CallCommonOf(pn).Args)-1], pn.Ctx)
+				okV := fromCache(v, part+"Cache")
+				if !okV && part == "data" && fromCache(v, "headerCache") {
+					// allowed only for a block without transactions
+					pp := pn
+					for _, f := range g.NecessaryEdges(func(x *Node) bool { return x == pp }) {
+						if f.Pol && f.Cond.IsCall("bytes.Equal") && strings.Contains(f.Cond.String(), "dataHashForEmptyTxs") {
+							okV = true
+						}
+					}
+				}
+				if !okV {
+					bad = trunc(v.String(), 90) + " @" + p.InstrPos(pn.In)
+				}
+			}
+			switch {
+			case !any:
+				c.Unk(rule, inst, fnName(fn), p.InstrPos(sn.In), "anchor lost: the stored bytes are not filled by PutUint64 into the same buffer")
+			case bad == "":
+				c.OK(rule, inst, fnName(fn), p.InstrPos(sn.In), "every value stored for the "+part+" comes from the "+part+"'s own DA-inclusion mark", true)
+			default:
+				c.Bad(rule, inst, fnName(fn), p.InstrPos(sn.In), "the DA height stored for the "+part+" of a block is "+bad+", not the height recorded for that "+part+": the recorded height is one at which its blob is not", nil)
+			}
+		}
+	}
+	if n == 0 {
+		c.Unk(rule, "stored-DA-heights", "", "", "anchor lost: no function stores the per-block DA heights")
+	}
+	c.MinInstances(rule, 2)
 }
 
 // ruleLoopSkipsOnlyWhenOwnTrackerEmpty (C06-R8 / C08-R3): in a submission loop a tick may be
